@@ -256,6 +256,110 @@ def all_two_way_splits(r):
     r.sample({"mode": "splits", "kinds": [k for k, v in KINDS.items() if len(v[0]) > 12], "cuts": "every position"})
 
 
+def positioned_inputs(r):
+    """WSGI: wsgi.input is one of the standard library's file objects and something in front of the application has already taken a
+    prefix off it (a signature line, a fixed-size header): the body is what is left from the current position on."""
+    import io
+    import tempfile
+    from baize.wsgi import Request
+    prefixes = [b"", b"sig=abc\n", b"0123456789abcdef"]
+    for kind, (B, ct) in KINDS.items():
+        for prefix in prefixes:
+            for fname, mk in (("BytesIO", lambda data: io.BytesIO(data)), ("BufferedReader", lambda data: io.BufferedReader(io.BytesIO(data))), ("TemporaryFile", None)):
+                for op in ("body", "stream_full", "json", "form"):
+                    outs = []
+                    for with_prefix in (False, True):
+                        data = (prefix if with_prefix else b"") + B
+                        if mk is None:
+                            f = tempfile.TemporaryFile()
+                            f.write(data)
+                            f.seek(0)
+                        else:
+                            f = mk(data)
+                        try:
+                            if with_prefix:
+                                f.read(len(prefix))
+                            env = SV.to_environ(make_req(kind, [B]))
+                            env["wsgi.input"] = f
+                            env["CONTENT_LENGTH"] = str(len(B))
+                            got, _ = wsgi_access(Request(env), op, [])
+                            outs.append(got)
+                        finally:
+                            f.close()
+                    r.count("evaluations")
+                    if prefix:
+                        r.count("distinct_nontrivial")
+                    if outs[0] != outs[1]:
+                        r.violation(f"positioned:{op}", {"mode": "positioned", "kind": kind, "op": op, "prefix": prefix, "file": fname},
+                                    f"wsgi {kind} body in a {fname} from which {len(prefix)} bytes had been read before the application was called, access {op}: {outs[1]!r:.200}; the same body at the start of the file gives {outs[0]!r:.200}")
+    r.sample({"mode": "positioned", "files": ["BytesIO", "BufferedReader", "TemporaryFile"], "prefixes": [len(p_) for p_ in prefixes]})
+
+
+def behind_middleware(r):
+    """The view sits behind the library's middleware and the middleware's handler has looked at its own request object first
+    (headers, cookies, an attempt at the body that is refused there): the view still reads the body that was sent."""
+    import asyncio
+    from baize import wsgi as W, asgi as A
+    for kind, (B, ct) in KINDS.items():
+        for peek in ("nothing", "headers", "body", "json", "form", "stream"):
+            for op in ("body", "stream_full", "json", "form"):
+                for iface in ("wsgi", "asgi"):
+                    box = {}
+                    if iface == "wsgi":
+                        def view(environ, start_response):
+                            box["got"], _ = wsgi_access(W.Request(environ), op, [])
+                            return W.PlainTextResponse("ok")(environ, start_response)
+
+                        @W.middleware
+                        def mw(request, next_call):
+                            try:
+                                if peek == "headers":
+                                    request.headers.get("content-type"), request.cookies, request.url
+                                elif peek == "stream":
+                                    list(request.stream())
+                                elif peek != "nothing":
+                                    getattr(request, peek)
+                            except Exception:  # noqa (an audit layer that shrugs off whatever it is refused)
+                                pass
+                            return next_call(request)
+
+                        def bare(environ, start_response):
+                            box["bare"], _ = wsgi_access(W.Request(environ), op, [])
+                            return W.PlainTextResponse("ok")(environ, start_response)
+                        SV.run_wsgi(bare, SV.to_environ(make_req(kind, [B[:3], B[3:]])), monitor=False)
+                        res = SV.run_wsgi(mw(view), SV.to_environ(make_req(kind, [B[:3], B[3:]])), monitor=False)
+                    else:
+                        async def aview(scope, receive, send):
+                            box["got"], _ = await asgi_access(A.Request(scope, receive, send), op, [])
+                            return await A.PlainTextResponse("ok")(scope, receive, send)
+
+                        @A.middleware
+                        async def amw(request, next_call):
+                            try:
+                                if peek == "headers":
+                                    request.headers.get("content-type"), request.cookies, request.url
+                                elif peek == "stream":
+                                    [c async for c in request.stream()]
+                                elif peek != "nothing":
+                                    await getattr(request, peek)
+                            except Exception:  # noqa
+                                pass
+                            return await next_call(request)
+
+                        async def abare(scope, receive, send):
+                            box["bare"], _ = await asgi_access(A.Request(scope, receive, send), op, [])
+                            return await A.PlainTextResponse("ok")(scope, receive, send)
+                        areq = make_req(kind, [B[:3], B[3:]])
+                        SV.run_asgi(abare, SV.to_scope(areq), SV.to_messages(areq), monitor=False)
+                        res = SV.run_asgi(amw(aview), SV.to_scope(areq), SV.to_messages(areq), monitor=False)
+                    r.count("evaluations")
+                    r.count("distinct_nontrivial")
+                    if res.exc is not None or box.get("got") != box.get("bare"):
+                        r.violation(f"behind-middleware:{iface}:{op}", {"mode": "behind-middleware", "iface": iface, "kind": kind, "op": op, "peek": peek},
+                                    f"{iface} {kind} body, view behind a middleware whose handler first looked at {peek}: access {op} gave {box.get('got')!r:.200} (exception {res.exc!r:.80}); without the middleware {box.get('bare')!r:.200}")
+    r.sample({"mode": "behind-middleware", "peeks": ["nothing", "headers", "body", "json", "form", "stream"]})
+
+
 def rearmed_inputs(r):
     """WSGI: the same wsgi.input object serves several requests one after another (a server that re-arms one input per keep-alive
     connection), or is rewound by a middleware that read the body through a request object of its own: every request object
@@ -835,7 +939,7 @@ def big_bodies(r):
 
 
 def shards(tier, seed):
-    out = [("big",), ("subrequests",), ("readfault",), ("rearmed",), ("splits",)] + [("two", k, 8) for k in range(8)]
+    out = [("big",), ("subrequests",), ("readfault",), ("rearmed",), ("splits",), ("positioned",), ("behind-middleware",)] + [("two", k, 8) for k in range(8)]
     for iface in ("wsgi", "asgi"):
         for kind in KINDS:
             out.append(("seq", iface, kind))
@@ -859,6 +963,12 @@ def run_shard(desc, tier):
         # the same family in an interpreter that runs with assert statements compiled away
         from ..core import fresh
         return fresh.optimized(__name__, tuple(desc[1]), tier)
+    if desc[0] == "positioned":
+        positioned_inputs(r)
+        return r
+    if desc[0] == "behind-middleware":
+        behind_middleware(r)
+        return r
     if desc[0] == "big":
         big_bodies(r)
         return r
@@ -972,6 +1082,11 @@ def replay(w):
         x = run_two_requests(list(w["schedule"]), tuple(w["kinds"]), tuple(tuple(a) for a in w["accessors"]))
         solo = [run_sequence_asgi(k, [KINDS[k][0]], tuple(a), None)[2] for k, a in zip(w["kinds"], w["accessors"])]
         return x.obs["results"] != solo or bool(x.obs["stuck"]), {"results": x.obs["results"], "alone": solo}
+    if w["mode"] in ("positioned", "behind-middleware"):
+        rr = R()
+        (positioned_inputs if w["mode"] == "positioned" else behind_middleware)(rr)
+        hits = {k: v for k, v in rr.viol.items() if v[1].get("op") == w.get("op")}
+        return bool(hits), {"violations": sorted(hits), "texts": [v[2][:300] for v in hits.values()]}
     if w["mode"] == "rearmed":
         rr = R()
         rearmed_inputs(rr)
